@@ -379,9 +379,21 @@ def _run_main(prog, tier):
             got = env.get(res_key)
             off = R.sym("self.cdf_offsets")          # indexed by the region of the query point (loop index erased)
             want = anf.sum_((1 + anf.erf_(dx / (anf.sqrt_(R.const(2)) * h))) / (2 * N), is_arr, R.sym("n_kept"), "ax1") + off
-            obs.append(formula_ob("kernel-form", qual(ci, fn), got, want, REL, fn.lineno,
-                                  what="cdf = sum over kept samples of (1 + erf((x-s)/(sqrt2 h))) / 2N + (samples dropped below)/N"))
+            # ... and what is returned is that array: the values filled by the region loop reach the caller unchanged (re-ordered only)
+            fac = _post_factor(prog, ci, fn, loop[0], res_key.split("[")[0])
+            if fac is None or not isinstance(got, R):
+                obs.append(struct_ob("kernel-form", qual(ci, fn), False,
+                                     "between the region loop and the return the cumulative values may only be put back in the caller's order; "
+                                     "what happens there is not a function of the values alone (a running maximum, a clip, a store into "
+                                     "the result changes them)", REL, fn.lineno))
+            else:
+                total = anf.subst(fac, {("sym", "RES"): got})
+                obs.append(formula_ob("kernel-form", qual(ci, fn), total, want, REL, fn.lineno,
+                                      what="cdf = sum over kept samples of (1 + erf((x-s)/(sqrt2 h))) / 2N + (samples dropped below)/N"))
 
+    # ---------------------------------------------------------------- tables derived from the final bandwidth
+    from .common import final_state_obligations
+    obs.extend(final_state_obligations(prog, "region-tables", "GaussianKDE", REL, {"h", "sample"}))
     # ---------------------------------------------------------------- region tables (resolved terms)
     rz = Resolver(init, prog, ci.module, ci)
     attr_val = {}
@@ -520,9 +532,16 @@ def _run_main(prog, tier):
             if isinstance(e_, ast.Call) and U(e_.func) in ("sort", "sorted") and e_.args and not [k for k in e_.keywords if k.arg not in ("axis", "kind")]:
                 sorted_seen, e_ = True, e_.args[0]
             elif isinstance(e_, ast.Call) and U(e_.func) in ("array", "asarray", "atleast_1d", "ravel", "squeeze") and e_.args:
+                dt_ = next((k.value for k in e_.keywords if k.arg == "dtype"), None)
+                if dt_ is not None and U(dt_) not in ("float", "float64", "'float64'", "double", "'double'", "'f8'", "np.float64", "numpy.float64", "longdouble"):
+                    break
                 e_ = e_.args[0]
             elif isinstance(e_, ast.Call) and isinstance(e_.func, ast.Attribute) and e_.func.attr in ("flatten", "ravel", "squeeze", "copy", "astype") \
                     and (not e_.args or e_.func.attr == "astype"):
+                # a conversion is part of the definition only when the type holds every value exactly (double precision)
+                if e_.func.attr == "astype" and not (e_.args and U(e_.args[0]) in (
+                        "float", "float64", "'float64'", "double", "'double'", "'f8'", "np.float64", "numpy.float64", "longdouble")):
+                    break
                 e_ = e_.func.value
             else:
                 break
